@@ -25,6 +25,7 @@ type Options struct {
 	TimeoutMs  int
 	NoReindex  bool
 	NoVacuity  bool
+	Hunt       bool // counterexample search only: an unknown/timeout is reported as "nothing found within the budget" (the bound is not claimed), a counterexample is replayed and reported as usual
 	NoGroup    bool
 	Abstract   bool // the harness runs against contracts (stubs): a counterexample is a path and cannot be replayed as is
 	Sweep      bool // SAT-sweep the miter (merge solver-proved equivalent sub-terms bottom-up) before the final query
